@@ -449,6 +449,83 @@ def emit_block(acts, fid, indent=1, fiber_body=False):
     return "\n".join(pad + line for line in out)
 
 
+RELAY_PROG = r"""
+# A relay catches every resumable signal of its child and re-raises it with (propagate value child). That must be
+# transparent: the next resume of the relay continues the CHILD with the resume value, and the child's clean-up runs once.
+(defn emit [sig x] (if (= sig :yield) (yield x) (signal sig x)))
+(def EMS %s)
+(def INS %s)
+(def DEPTH %d)
+(def log @[])
+(defn child-fn []
+  (defer (array/push log "child-cleanup")
+    (each [s v] EMS (array/push log (string "got " (emit s v))))
+    :child-done))
+(defn make-relay [inner lvl]
+  (fn []
+    (def c (fiber/new inner :yi5678))
+    (defer (array/push log (string "relay-cleanup " lvl))
+      (var r (resume c))
+      (while (not= :dead (fiber/status c))
+        (array/push log (string "forward " lvl " " r))
+        (set r (propagate r c)))
+      r)))
+(var f child-fn)
+(for i 0 DEPTH (set f (make-relay f i)))
+(def top (fiber/new f :a))
+(each x INS
+  (when (fiber/can-resume? top)
+    (def v (resume top x))
+    (print "V " v " " (fiber/status top))))
+(each l log (print "L " l))
+(print "RELAY-DONE")
+"""
+
+
+def relay_case(ctx, exe, i):
+    rng = random.Random(ctx.sub_seed("relay", i))
+    n = rng.choice([1, 2, 3, 5])
+    depth = rng.choice([0, 1, 1, 2, 3])
+    sigs = [rng.choice(["yield", 5, 6, 7, 8]) for _ in range(n)]     # 9 is the event-loop's own signal: not a user protocol
+    ems = "[" + " ".join("[%s %d]" % (":yield" if sg == "yield" else sg, 100 + k) for k, sg in enumerate(sigs)) + "]"
+    ins = "[" + " ".join(str(200 + k) for k in range(n + 2)) + "]"
+    script = RELAY_PROG % (ems, ins, depth)
+    want = []
+    for k, sg in enumerate(sigs):
+        want.append("V %d %s" % (100 + k, "pending" if sg == "yield" else ("interrupted" if sg == 8 else "user%d" % sg)))
+    want.append("V child-done dead")
+    for k in range(n):
+        for lvl in range(depth):
+            want.append("L forward %d %d" % (lvl, 100 + k))
+        want.append("L got %d" % (200 + k + 1))
+    want.append("L child-cleanup")
+    for lvl in range(depth):
+        want.append("L relay-cleanup %d" % lvl)
+    want.append("RELAY-DONE")
+    d = core.case_dir()
+    path = os.path.join(d, "relay.janet")
+    open(path, "w").write(script)
+    res = core.run([exe, path], timeout=120)
+    files = {"relay.janet": script, "expected.txt": "\n".join(want)}
+    usable = ctx.check_result(res, files, where="relay")
+    got = res.out.decode(errors="replace").splitlines()
+    core.discard(res)
+    if not usable:
+        return
+    ctx.evals()
+    ctx.count("relay_programs")
+    if depth >= 1:
+        ctx.nontriv(("relay", ems, depth))
+    if got != want:
+        k = 0
+        while k < min(len(got), len(want)) and got[k] == want[k]:
+            k += 1
+        files["observed.txt"] = "\n".join(got)
+        ctx.violation("propagate-relay-not-transparent:%s" % ("yield" if "yield" in sigs else "user"),
+                      "relay depth %d over signals %s: line %d is %r, expected %r (stderr %s)" % (
+                          depth, sigs, k, got[k] if k < len(got) else "<end>", want[k] if k < len(want) else "<end>", res.err.decode(errors="replace")[-200:]), files)
+
+
 def run(ctx):
     exe = build.janet("plain")
     exe_reloc = build.janet("asan-reloc") if ctx.tier != "quick" else None
@@ -524,3 +601,6 @@ def run(ctx):
                     ctx.sample({"events": want.count("(") - 1, "levels_crossed": d2, "trace": want[:160]}, cap=4)
 
     core.pmap(do_batch, range(nb))
+
+    # phase 2: transparent relays built on (propagate value child) for resumable signals
+    core.pmap(lambda i: relay_case(ctx, exe, i), range(60 if quick else 2000))
